@@ -1,4 +1,190 @@
+//! C20 direct monitor: one generated result (schema + batches of ScalarValue cells) is written by the real QueryResponseWriter
+//! through JsonRenderer, UnixRenderer and ArrowRenderer; the Arrow stream is decoded here with arrow-ipc's StreamReader (independent
+//! of the encoder), the two text streams are returned verbatim (base64) for the python oracle, which parses them with its own json.
+//! input: {"cases":[{"columns":[{"name","logical_type"}],"batches":[[[cell,..],..],..],"limit":n|null,"offset":n|null}],
+//!         "decode_arrow":[base64 streams]}      cell = {"t":"n"} | {"t":"i","v":int} | {"t":"f","v":num|"nan"|"inf"|"-inf"} |
+//!                                                       {"t":"s","v":str} | {"t":"b","v":bool} | {"t":"ts","v":int} | {"t":"bin","v":[bytes]}
+use arrow_array::{Array, BooleanArray, Float64Array, Int64Array, LargeStringArray, StringArray, TimestampMillisecondArray};
+use arrow_ipc::reader::StreamReader;
 use serde_json::{Value, json};
-pub fn run(_input: &Value) -> Value {
-    json!({"error": "not implemented"})
+use snel_db::command::handlers::query::QueryResponseWriter;
+use snel_db::command::handlers::query_batch_stream::QueryBatchStream;
+use snel_db::engine::core::read::flow::{BatchPool, BatchSchema, FlowChannel, FlowMetrics};
+use snel_db::engine::core::read::result::ColumnSpec;
+use snel_db::engine::types::ScalarValue;
+use snel_db::shared::response::render::Renderer;
+use snel_db::shared::response::{ArrowRenderer, JsonRenderer, UnixRenderer};
+use std::io::Cursor;
+use std::sync::Arc;
+
+fn b64(bytes: &[u8]) -> String {
+    const T: &[u8; 64] = b"ABCDEFGHIJKLMNOPQRSTUVWXYZabcdefghijklmnopqrstuvwxyz0123456789+/";
+    let mut out = String::with_capacity(bytes.len() * 4 / 3 + 4);
+    for ch in bytes.chunks(3) {
+        let b = [ch[0], *ch.get(1).unwrap_or(&0), *ch.get(2).unwrap_or(&0)];
+        let n = ((b[0] as u32) << 16) | ((b[1] as u32) << 8) | b[2] as u32;
+        out.push(T[(n >> 18) as usize & 63] as char);
+        out.push(T[(n >> 12) as usize & 63] as char);
+        out.push(if ch.len() > 1 { T[(n >> 6) as usize & 63] as char } else { '=' });
+        out.push(if ch.len() > 2 { T[n as usize & 63] as char } else { '=' });
+    }
+    out
+}
+
+fn unb64(s: &str) -> Vec<u8> {
+    let mut out = Vec::new();
+    let mut buf = 0u32;
+    let mut bits = 0;
+    for c in s.bytes() {
+        let v = match c {
+            b'A'..=b'Z' => c - b'A',
+            b'a'..=b'z' => c - b'a' + 26,
+            b'0'..=b'9' => c - b'0' + 52,
+            b'+' => 62,
+            b'/' => 63,
+            _ => continue,
+        } as u32;
+        buf = (buf << 6) | v;
+        bits += 6;
+        if bits >= 8 {
+            bits -= 8;
+            out.push((buf >> bits) as u8);
+            buf &= (1 << bits) - 1;
+        }
+    }
+    out
+}
+
+fn cell_of(v: &Value) -> ScalarValue {
+    match v["t"].as_str().unwrap_or("n") {
+        "i" => ScalarValue::Int64(v["v"].as_i64().unwrap_or(0)),
+        "ts" => ScalarValue::Timestamp(v["v"].as_i64().unwrap_or(0)),
+        "f" => ScalarValue::Float64(match &v["v"] {
+            Value::String(s) if s == "nan" => f64::NAN,
+            Value::String(s) if s == "inf" => f64::INFINITY,
+            Value::String(s) if s == "-inf" => f64::NEG_INFINITY,
+            x => x.as_f64().unwrap_or(0.0),
+        }),
+        "s" => ScalarValue::Utf8(v["v"].as_str().unwrap_or("").to_string()),
+        "b" => ScalarValue::Boolean(v["v"].as_bool().unwrap_or(false)),
+        "bin" => ScalarValue::Binary(v["v"].as_array().map(|a| a.iter().map(|x| x.as_u64().unwrap_or(0) as u8).collect()).unwrap_or_default()),
+        _ => ScalarValue::Null,
+    }
+}
+
+fn fjson(f: f64) -> Value {
+    if f.is_nan() {
+        json!("nan")
+    } else if f.is_infinite() {
+        json!(if f > 0.0 { "inf" } else { "-inf" })
+    } else {
+        json!(f)
+    }
+}
+
+pub fn decode_arrow(bytes: &[u8]) -> Value {
+    let reader = match StreamReader::try_new(Cursor::new(bytes.to_vec()), None) {
+        Ok(r) => r,
+        Err(e) => return json!({"error": format!("open: {e}")}),
+    };
+    let schema = reader.schema();
+    let cols: Vec<String> = schema.fields().iter().map(|f| f.name().clone()).collect();
+    let types: Vec<String> = schema.fields().iter().map(|f| format!("{:?}", f.data_type())).collect();
+    let mut rows: Vec<Value> = Vec::new();
+    let mut batches = 0u64;
+    for rb in reader {
+        let rb = match rb {
+            Ok(b) => b,
+            Err(e) => return json!({"error": format!("batch {batches}: {e}"), "cols": cols, "rows": rows}),
+        };
+        batches += 1;
+        for r in 0..rb.num_rows() {
+            let mut row = Vec::new();
+            for c in 0..rb.num_columns() {
+                let col = rb.column(c);
+                let cell = if col.is_null(r) {
+                    json!({"t": "n"})
+                } else if let Some(a) = col.as_any().downcast_ref::<Int64Array>() {
+                    json!({"t": "i", "v": a.value(r)})
+                } else if let Some(a) = col.as_any().downcast_ref::<Float64Array>() {
+                    json!({"t": "f", "v": fjson(a.value(r))})
+                } else if let Some(a) = col.as_any().downcast_ref::<BooleanArray>() {
+                    json!({"t": "b", "v": a.value(r)})
+                } else if let Some(a) = col.as_any().downcast_ref::<LargeStringArray>() {
+                    json!({"t": "s", "v": a.value(r)})
+                } else if let Some(a) = col.as_any().downcast_ref::<StringArray>() {
+                    json!({"t": "s", "v": a.value(r)})
+                } else if let Some(a) = col.as_any().downcast_ref::<TimestampMillisecondArray>() {
+                    json!({"t": "ts_ms", "v": a.value(r)})
+                } else {
+                    json!({"t": "other", "v": format!("{:?}", col.data_type())})
+                };
+                row.push(cell);
+            }
+            rows.push(Value::Array(row));
+        }
+    }
+    json!({"cols": cols, "types": types, "rows": rows, "record_batches": batches})
+}
+
+async fn run_one(case: &Value, renderer: &dyn Renderer) -> Result<Vec<u8>, String> {
+    let specs: Vec<ColumnSpec> = case["columns"]
+        .as_array()
+        .map(|a| {
+            a.iter()
+                .map(|c| ColumnSpec { name: c["name"].as_str().unwrap_or("").to_string(), logical_type: c["logical_type"].as_str().unwrap_or("String").to_string() })
+                .collect()
+        })
+        .unwrap_or_default();
+    let schema = Arc::new(BatchSchema::new(specs).map_err(|e| format!("schema: {e:?}"))?);
+    let metrics = FlowMetrics::new();
+    let empty = Vec::new();
+    let batches = case["batches"].as_array().unwrap_or(&empty);
+    let (tx, rx) = FlowChannel::bounded(batches.len().max(1) + 4, Arc::clone(&metrics));
+    let pool = BatchPool::new(4096).map_err(|e| format!("pool: {e:?}"))?;
+    for rows in batches {
+        let mut b = pool.acquire(Arc::clone(&schema));
+        for row in rows.as_array().unwrap_or(&empty) {
+            let cells: Vec<ScalarValue> = row.as_array().map(|r| r.iter().map(cell_of).collect()).unwrap_or_default();
+            b.push_row(&cells).map_err(|e| format!("push_row: {e:?}"))?;
+        }
+        let fin = b.finish().map_err(|e| format!("finish: {e:?}"))?;
+        tx.send(Arc::new(fin)).await.map_err(|e| format!("send: {e:?}"))?;
+    }
+    drop(tx);
+    let stream = QueryBatchStream::verif_from_parts(Arc::clone(&schema), rx, Vec::new());
+    let mut out: Vec<u8> = Vec::new();
+    let limit = case["limit"].as_u64().map(|x| x as u32);
+    let offset = case["offset"].as_u64().map(|x| x as u32);
+    QueryResponseWriter::new(&mut out, renderer, schema, limit, offset).write(stream).await.map_err(|e| format!("write: {e:?}"))?;
+    Ok(out)
+}
+
+pub fn run(input: &Value) -> Value {
+    let rt = tokio::runtime::Builder::new_multi_thread().worker_threads(2).enable_all().build().expect("rt");
+    let empty = Vec::new();
+    let mut out_cases = Vec::new();
+    for case in input["cases"].as_array().unwrap_or(&empty) {
+        let mut o = serde_json::Map::new();
+        for (name, r) in [("json", &JsonRenderer as &dyn Renderer), ("unix", &UnixRenderer as &dyn Renderer), ("arrow", &ArrowRenderer as &dyn Renderer)] {
+            let res = std::panic::catch_unwind(std::panic::AssertUnwindSafe(|| rt.block_on(run_one(case, r))));
+            let v = match res {
+                Err(_) => json!({"panic": true}),
+                Ok(Err(e)) => json!({"error": e}),
+                Ok(Ok(bytes)) => {
+                    if name == "arrow" {
+                        let mut d = decode_arrow(&bytes);
+                        d["bytes"] = json!(bytes.len());
+                        d
+                    } else {
+                        json!({"b64": b64(&bytes)})
+                    }
+                }
+            };
+            o.insert(name.to_string(), v);
+        }
+        out_cases.push(Value::Object(o));
+    }
+    let decoded: Vec<Value> = input["decode_arrow"].as_array().unwrap_or(&empty).iter().map(|s| decode_arrow(&unb64(s.as_str().unwrap_or("")))).collect();
+    json!({"cases": out_cases, "decoded": decoded})
 }
